@@ -115,6 +115,8 @@ def scenarios(ctx):
             w["gt_desc"] = True                            # unphased heterozygous genotypes written 1/0
         if rng.random() < 0.15:
             w["first_at_zero"] = True                      # the first site on the first base of its contig
+        if rng.random() < 0.2:
+            w["multi_before"] = [[ci_, si_] for ci_, ch_ in enumerate(w["chroms"]) for si_ in range(len(ch_["sites"])) if rng.random() < 0.4]
         if rng.random() < 0.15:
             w["phase_vcf"] = True                          # a phased VCF (true haplotypes, blocks) as an additional phase input
         scs.append({"world": w})
